@@ -2,12 +2,14 @@
 from checks import proto_common as pc
 
 QUICK = [
-    ("arb-lock3", ["req=0:3115b50901a9", "submit=1", "qq=03", "zz=fe", "nn=0", "snn=1", "win=03,11,15", "buslost=2"]),
+    ("arb-lock3", ["req=0:3115b50901a9", "submit=1", "qq=03", "zz=fe", "nn=0", "snn=0", "win=03,11", "buslost=1"]),
+    ("chunk2-arb", ["chunk2=1", "req=0:3115b5090100", "submit=1", "nn=0", "snn=0", "qq=03", "zz=fe", "win=03,11", "echofaults=0", "buslost=1"]),
     ("readonly", ["req=0:3115b5090142", "submit=1", "qq=03", "zz=fe,15", "nn=0", "snn=0", "readonly=1"]),
     ("enh-arb", ["enhanced=1", "req=0:3115b5090100", "submit=1", "qq=03", "zz=fe", "nn=0", "snn=0", "win=03,11", "buslost=1", "echofaults=0"]),
     ("gensyn", ["gensyn=1", "req=0:31feb50900", "submit=1", "qq=03", "zz=fe", "nn=0", "snn=0", "win=03", "echofaults=0"]),
 ]
 THOROUGH = QUICK + [
+    ("arb-lock3-full", ["req=0:3115b50901a9", "submit=1", "qq=03", "zz=fe", "nn=0", "snn=1", "win=03,11,15", "buslost=2", "maxnodes=1500000"]),
     ("arb-lock5", ["req=0:3115b50901a9", "submit=1", "qq=03", "zz=fe", "nn=0", "snn=1", "win=03,11,15", "buslost=2", "lock=5", "maxnodes=1500000"]),
     ("arb-submit-always", ["req=0:3115b5090100", "submit=2", "qq=03", "zz=fe,15", "nn=0", "snn=0", "win=03,11", "buslost=1", "echofaults=0", "maxnodes=1500000"]),
     ("answer-and-request", ["answer=1", "ans=aa:36:b509:-:00", "req=0:31feb50900", "submit=1", "qq=03", "zz=36,fe", "nn=0", "snn=0", "win=03", "echofaults=0"]),
